@@ -638,7 +638,11 @@ def aborted(name):
     """The event `name`, but its transaction is aborted at the last moment (a pre-commit handler raises): everything the
     transaction body did - including version bookkeeping for re-created handles - must be without effect."""
     def ev(p):
-        def handler(mdib, tr):  # noqa: ARG001
+        orig = p.mdib.pre_commit_handler
+
+        def handler(mdib, tr):
+            if callable(orig):
+                orig(mdib, tr)      # the role providers' pre-commit work happens, then a later handler vetoes
             raise _Abort
         p.mdib.pre_commit_handler = handler
         try:
@@ -646,7 +650,7 @@ def aborted(name):
         except _Abort:
             pass
         finally:
-            p.mdib.pre_commit_handler = None
+            p.mdib.pre_commit_handler = orig
     return ev
 
 
